@@ -33,6 +33,9 @@ type procJ struct {
 	Kinds  []int `json:"kinds"`
 	Suffix B     `json:"suffix"`
 	Fails  bool  `json:"fails"`
+	// Replace: the processor hands on Suffix alone whatever came in (a filter, a formatter); with an
+	// empty Suffix that is a nil slice and no error - an empty result, not a failure
+	Replace bool `json:"replace"`
 }
 type fileEntJ struct {
 	Path    B   `json:"path"`
@@ -97,12 +100,20 @@ type kindProc struct {
 	kinds  map[int]bool
 	suffix string
 	fails  bool
+	repl   bool
 }
 
 func (p kindProc) Match(a pgs.Artifact) bool { return p.kinds[kindOf(a)] }
 func (p kindProc) Process(in []byte) ([]byte, error) {
 	if p.fails {
 		return nil, errors.New("procfail")
+	}
+	if p.repl {
+		var out []byte // stays nil when there is nothing to hand on
+		for _, c := range []byte(p.suffix) {
+			out = append(out, c)
+		}
+		return out, nil
 	}
 	return append(append([]byte{}, in...), p.suffix...), nil
 }
@@ -239,6 +250,11 @@ func (e persistEngine) Run(raw json.RawMessage) (interface{}, error) {
 	if err := json.Unmarshal(raw, &in); err != nil {
 		return nil, err
 	}
+	// a module author may call ProtoFile() himself; a template that fails half way (output already
+	// written) must leave nothing behind that a later rendering could pick up
+	if _, err := (pgs.GeneratorTemplateFile{Name: "warmup.go", TemplateArtifact: pgs.TemplateArtifact{Template: bufTpl{text: "LEFTOVER", err: errors.New("tplfail")}}}).ProtoFile(); err == nil {
+		return map[string]interface{}{"died": true, "cause": "a failing template was reported as rendered"}, nil
+	}
 	var fs afero.Fs = afero.NewMemMapFs()
 	cleanup := func() {}
 	if in.FSKind == "os" {
@@ -275,7 +291,7 @@ func (e persistEngine) Run(raw json.RawMessage) (interface{}, error) {
 	}
 	g := pgs.Init(opts...)
 	for _, p := range in.Procs {
-		kp := kindProc{kinds: map[int]bool{}, suffix: p.Suffix.String(), fails: p.Fails}
+		kp := kindProc{kinds: map[int]bool{}, suffix: p.Suffix.String(), fails: p.Fails, repl: p.Replace}
 		for _, k := range p.Kinds {
 			kp.kinds[k] = true
 		}
@@ -501,6 +517,14 @@ func (e persistEngine) genC11p(g *Gen, emit func(persistIn)) {
 		if i%4 == 2 {
 			all := procJ{Kinds: []int{0, 1, 2, 3, 4, 5}, Suffix: toB("<p>")}
 			emit(persistIn{Arts: []artJ{f, a, in1, in2}, Procs: []procJ{all}})
+			if i%16 == 0 {
+				// a processor whose result is empty (nil, no error) empties the chunk; the next one sees nothing
+				drop := procJ{Kinds: []int{0, 1, 2, 3, 4, 5, 6, 7}, Suffix: B{}, Replace: true}
+				konst := procJ{Kinds: []int{0, 2, 4, 6}, Suffix: toB("K"), Replace: true}
+				emit(persistIn{Arts: []artJ{f, a, in1, in2}, Procs: []procJ{drop}})
+				emit(persistIn{Arts: []artJ{f, a, in1, in2}, Procs: []procJ{all, drop, all}})
+				emit(persistIn{Arts: []artJ{f, a, in1, in2, mkArt("custom", "c/"+s, "C")}, Procs: []procJ{all, konst, drop}})
+			}
 		}
 		// the name on something that is not one of the six kinds (a pointer to one, a foreign type
 		// embedding one): never emitted, whatever the name
@@ -611,6 +635,12 @@ func (e persistEngine) genC10(g *Gen, emit func(persistIn)) {
 		in := persistIn{Arts: seq}
 		for p := g.Rng.Intn(4); p > 0; p-- {
 			pj := procJ{Kinds: []int{}, Suffix: toB(fmt.Sprintf("<p%d>", p)), Fails: g.Rng.Intn(25) == 0}
+			if p == 1 && len(seq)%4 == 1 { // a processor that replaces what it is given - by nothing at all now and then
+				pj.Replace = true
+				if len(seq)%8 == 1 {
+					pj.Suffix = B{}
+				}
+			}
 			for k := 0; k < 9; k++ {
 				if g.Rng.Intn(2) == 0 {
 					pj.Kinds = append(pj.Kinds, k)
@@ -712,6 +742,12 @@ func (e persistEngine) genC12(g *Gen, emit func(persistIn)) {
 		}
 		for p := g.Rng.Intn(3); p > 0; p-- {
 			pj := procJ{Kinds: []int{}, Suffix: toB(fmt.Sprintf("<p%d>", p)), Fails: g.Rng.Intn(40) == 0}
+			if p == 1 && len(in.Arts)%4 == 1 {
+				pj.Replace = true
+				if len(in.Arts)%8 == 1 {
+					pj.Suffix = B{}
+				}
+			}
 			for _, k := range []int{0, 6, 7} {
 				if g.Rng.Intn(2) == 0 {
 					pj.Kinds = append(pj.Kinds, k)
@@ -724,6 +760,29 @@ func (e persistEngine) genC12(g *Gen, emit func(persistIn)) {
 		}
 		g.Count("fs", map[string]string{"": "memory", "os": "os-tempdir"}[in.FSKind])
 		g.Count("preexisting", fmt.Sprint(len(in.FS0)))
+		emit(in)
+	}
+	// long batches (a plugin that writes one file per message): many custom files over a few
+	// directories in no particular order, several of them addressing the same path
+	nl := 60
+	if g.Thorough() {
+		nl = 1500
+	}
+	dirs := []string{"z", "m/n", "a", "m", "k/../z", "b/c", ""}
+	for i := 0; i < nl; i++ {
+		var in persistIn
+		if g.Rng.Intn(2) == 0 {
+			in.FS0 = append(in.FS0, fileEntJ{toB("z/f0"), toB("old-z"), 0600})
+		}
+		for j, n := 0, 13+g.Rng.Intn(40); j < n; j++ {
+			nm := fmt.Sprint("f", g.Rng.Intn(4))
+			if d := pick(g.Rng, dirs); d != "" {
+				nm = d + "/" + nm
+			}
+			in.Arts = append(in.Arts, mkc(nm, fmt.Sprint("L", j), g.Rng.Intn(2) == 0, []int{0644, 0600, 0755}[g.Rng.Intn(3)]))
+		}
+		g.Count("fs", "memory")
+		g.Count("long-batch", "yes")
 		emit(in)
 	}
 }
